@@ -41,8 +41,11 @@ def _worker(task):
     c = todo[idx]
     kw = getattr(pack, "EXECUTOR_KW", {}).get(c.target, None)
     timeout = 60000 if tier == "thorough" else None
+    t0 = time.time()
     rep = verify.run_contract(prop, c, reg, uni, repo=repo, timeout_ms=timeout,
                               executor_cls=getattr(pack, "EXECUTOR", verify.Executor), executor_kw=kw)
+    if os.environ.get("PYVC_TIMING"):
+        print(f"[timing] {c.target.split('::')[-1]} {time.time() - t0:.1f}s", file=sys.stderr, flush=True)
     return rep.to_dict()
 
 
@@ -60,7 +63,11 @@ def _lemma_worker(task):
 def _extra_worker(task):
     prop, idx, repo, tier = task
     pack = importlib.import_module(f"contracts.{prop}")
-    return pack.EXTRA[idx](repo, tier)
+    t0 = time.time()
+    r = pack.EXTRA[idx](repo, tier)
+    if os.environ.get("PYVC_TIMING"):
+        print(f"[timing] EXTRA {pack.EXTRA[idx].__name__} {time.time() - t0:.1f}s", file=sys.stderr, flush=True)
+    return r
 
 
 def load_json(path, default):
@@ -101,7 +108,7 @@ def main(argv=None):
     n_extra = len(getattr(pack, "EXTRA", []))
 
     tasks = [(prop, i, repo, tier) for i in range(len(todo))]
-    ctx = mp.get_context("fork")
+    ctx = mp.get_context(os.environ.get("PYVC_MP", "spawn"))
     with ctx.Pool(min(a.jobs, max(1, len(tasks) + n_lem + n_extra))) as pool:
         r1 = pool.map_async(_worker, tasks, chunksize=1)
         r2 = pool.map_async(_lemma_worker, [(prop, i, repo, tier) for i in range(n_lem)], chunksize=1)
